@@ -7,7 +7,7 @@ LANG_TYPES = {
     "f64": b"\x7c",
     "v128": b"\x7b",
     "funcref": b"\x70",
-    "externref": b"\6F",
+    "externref": b"\x6f",
     "func": b"\x60",
     "emptyblock": b"\x40",  # pseudo type for representing an empty block_type
 }
